@@ -31,6 +31,7 @@ def main():
     ap.add_argument("--seed", default="1")
     ap.add_argument("--clean", action="store_true")
     ap.add_argument("--no-patch", action="store_true", help="run on the unmodified worktree (sanity)")
+    ap.add_argument("--confirm", metavar="DEMO", help="also build guard-off, run the 428-test suite on the mutant and the demo on both binaries")
     a = ap.parse_args()
     if a.clean:
         sh("git -C /repo worktree remove --force %s; rm -rf %s" % (WT, ST))
@@ -45,6 +46,19 @@ def main():
         if r.returncode != 0:
             print("patch does not apply")
             return 2
+    if a.confirm:
+        off = ST + "/off"
+        if not os.path.exists(off + "/build.ninja"):
+            sh("cmake -G Ninja -S %s -B %s -DCMAKE_BUILD_TYPE=RelWithDebInfo -DCMAKE_CXX_FLAGS=-Wno-error > /dev/null" % (WT, off), check=True)
+        r = sh("ninja -C %s > %s/off.log 2>&1" % (off, ST))
+        print("confirm: build %s" % ("ok" if r.returncode == 0 else "FAILED (see %s/off.log)" % ST))
+        if r.returncode == 0:
+            r = sh("cd %s && ctest -j12 --timeout 900 2>&1 | tail -3" % off, stdout=subprocess.PIPE, text=True)
+            print("confirm: suite: " + " / ".join(l.strip() for l in r.stdout.splitlines() if l.strip()))
+            demo = os.path.abspath(a.confirm)
+            rc_clean = sh(["bash", demo, "/repo/_build/ledger"], stdout=subprocess.DEVNULL, stderr=subprocess.DEVNULL, cwd=os.path.dirname(demo)).returncode
+            rc_mut = sh(["bash", demo, off + "/ledger"], stdout=subprocess.DEVNULL, stderr=subprocess.DEVNULL, cwd=os.path.dirname(demo)).returncode
+            print("confirm: demo clean exit=%d mutant exit=%d" % (rc_clean, rc_mut))
     sh("rsync -a --delete --exclude .build --exclude .git --exclude replays --exclude evidence %s/ %s/" % (ROOT, VCOPY), check=True)
     env = dict(os.environ, VERIF_REPO=WT, VERIF_BUILD=BUILD, VERIF_SEED=a.seed, VERIF_TIER=a.tier)
     rc_all = {}
